@@ -31,6 +31,21 @@ _TAIL_UNVERIFIED = [
 ]
 
 PROPS = {
+    "C15": {
+        "verus": ["lexer_pos", "interp_loc"], "kani": [], "native": [],
+        "level": "proof",
+        "explanation": "Two of the stages through which locations are threaded are proved for all inputs: Lexer::advance maintains the exact "
+                       "1-based line and the column recurrence over the consumed prefix (so a token's position is never on an earlier line "
+                       "than any character consumed before it and never beyond the text), Lexer::next stamps every token with that position, "
+                       "from_char_stream starts at (1,1); Interpreter::eval_ast keeps an inner error location and fills a missing one with "
+                       "the statement's own location.",
+        "unverified": ["data and expressions inheriting token locations in parser.rs (transform_to_statement, current_datum ...)",
+                       "template-built data take the TEMPLATE's location (macros.rs substitude): an error inside a top-level `let` is "
+                       "reported at a line of the bundled grammar.sld -- known to be wrong today, outside any obligation stated here, so "
+                       "neither an alarm nor a KNOWN-FINDING line",
+                       "located_error! sites in eval_expression (function not under contract)"],
+        "assumptions": ["fewer than 2^32 lines and columns (u32 counters)", "std::iter::Peekable::next yields and drops the head of the remaining input"],
+    },
     "C04": {
         "verus": ["macro_transform"], "kani": ["macros"], "native": [],
         "level": "proof",
